@@ -83,6 +83,8 @@ def _random_trace_(seed):
     try:
         w = dc.World(shape)
     except Exception as e:      # a node the generator is entitled to build cannot be created
+        if dc.refusable(shape):
+            return None         # frappy may refuse such a configuration as a whole (C10)
         return {'build_error': repr(e)[:300], 'shape': shape}
     trace = [{'ev': 'shape', 'shape': shape, 'cache': w.cache()}]
     for _ in range(rnd.randint(10, 30)):
@@ -150,6 +152,8 @@ def run(chk):
     n = 400 if quick else 15000
     traces = []
     for x in pool_map(_random_trace, [chk.seed * 1000003 + i for i in range(n)]):
+        if x is None:
+            continue
         if isinstance(x, dict):
             chk.violation({'module': 'Dispatch', 'clause': 'node.build', 'shape': 'random'},
                           {'error': x['build_error'], 'shape': x['shape']})
